@@ -21,12 +21,12 @@ var filterStrings = map[int]string{1: "*", 2: "user", 3: "user:u1", 4: "member-j
 	7: "user:u1,member-failed", 8: "bogus"}
 
 type streamRun struct {
-	e      *env
-	c      *client
-	nodes  map[int]*memberlist.Node
-	qlt    uint64
-	hand   int
-	logh   int
+	e            *env
+	c            *client
+	nodes        map[int]*memberlist.Node
+	qlt          uint64
+	hand         int
+	logh         int
 	sawDecodeErr bool
 }
 
